@@ -938,8 +938,15 @@ func (m *lm) opDup() string {
 		a := m.w.Apply(sim.Op{K: "craft", Sealer: m.w.RogueWallet(0), From: from, To: to, Data: 5, L: m.w.OrderIndex(p), R: m.w.OrderIndex(p)}).Vertex
 		b := m.w.Apply(sim.Op{K: "craft-dup", Sealer: m.w.RogueWallet(1), V: m.w.OrderIndex(a.Hash), L: m.w.OrderIndex(p2)}).Vertex
 		sub := []sim.Op{{K: "deliver", N: n, V: m.w.OrderIndex(a.Hash)}, {K: "deliver", N: n, V: m.w.OrderIndex(b.Hash)}}
-		if rapid.Bool().Draw(m.rt, "uAlsoPropose") {
+		switch rapid.IntRange(0, 3).Draw(m.rt, "uMix") {
+		case 1: // both sealed vertices and the bare transaction
 			sub = append(sub, sim.Op{K: "repropose", N: n, V: m.w.OrderIndex(a.Hash)})
+		case 2: // the bare transaction proposed by three callers at once (the sealed vertices stay undelivered)
+			m.label("dup:concurrent-proposals-of-one-fresh-tx")
+			sub = []sim.Op{{K: "repropose", N: n, V: m.w.OrderIndex(a.Hash)}, {K: "repropose", N: n, V: m.w.OrderIndex(a.Hash)}, {K: "repropose", N: n, V: m.w.OrderIndex(a.Hash)}}
+		case 3: // two proposals and one sealed vertex
+			m.label("dup:concurrent-proposals-of-one-fresh-tx")
+			sub = []sim.Op{{K: "repropose", N: n, V: m.w.OrderIndex(a.Hash)}, {K: "repropose", N: n, V: m.w.OrderIndex(a.Hash)}, {K: "deliver", N: n, V: m.w.OrderIndex(b.Hash)}}
 		}
 		r := m.w.Apply(sim.Op{K: "batch", Sub: sub})
 		oks := 0
@@ -950,7 +957,9 @@ func (m *lm) opDup() string {
 			}
 		}
 		if oks > 1 {
-			m.addViol("C03", "transaction-accepted-twice", "node %d: the transaction of %s was offered at once as two differently sealed vertices%s and %d of the calls reported success", n, short(a.Hash), map[bool]string{true: " and as a bare proposal", false: ""}[len(sub) == 3], oks)
+			// not a verdict by itself (a first vertex may legitimately have been dropped as an invalid tip by the second
+			// call); the ledger oracle right after this step decides (one live vertex per transaction, index exact)
+			m.label("dup:more-than-one-concurrent-call-succeeded")
 		}
 		return fmt.Sprintf("dup-concurrent-two-sealings(node %d, %s and %s, %d calls) ok=%d", n, short(a.Hash), short(b.Hash), len(sub), oks)
 	case 0: // re-deliver a vertex (admitted, parked, checkpointed or dropped)
